@@ -723,3 +723,37 @@ pub fn replay(engine_lookup: impl Fn(&str) -> Option<&'static dyn Engine>, file:
         }
     }
 }
+
+/// `sim min <ID> <tier> <index> <signature-prefix>`: minimise one run's violation and print it (debugging aid)
+pub fn minimise_index(engine: &'static dyn Engine, tier: Tier, index: u64, sig_prefix: &str) -> i32 {
+    let seed = env_u64("VERIF_SEED").unwrap_or(1);
+    let paths = Arc::new(Paths::from_env());
+    let _ = std::fs::create_dir_all(&paths.scratch);
+    let gen_env = paths.worker_env(tier, 999);
+    let scn = engine.generate(seed, index, tier, &gen_env);
+    let mut w = WorkerHandle::new(0, engine.id(), tier, seed, paths.clone());
+    let r = match exec_scenario(engine, &mut w, &scn, engine.cpu_budget_s(tier)) {
+        Ok(r) => r,
+        Err(e) => {
+            eprintln!("harness error: {e}");
+            return 2;
+        }
+    };
+    let sig = match r.violations.iter().find(|v| v.signature.starts_with(sig_prefix)) {
+        Some(v) => v.signature.clone(),
+        None => {
+            println!("no violation with prefix {sig_prefix}; have {:?}", r.violations.iter().map(|v| &v.signature).collect::<Vec<_>>());
+            return 0;
+        }
+    };
+    let (min, evals) = minimise(engine, &mut w, &scn, &sig, tier);
+    let r2 = exec_scenario(engine, &mut w, &min, engine.cpu_budget_s(tier)).unwrap_or_default();
+    drop(w);
+    let _ = std::fs::remove_dir_all(&paths.scratch);
+    println!("signature={sig} minimisation_evaluations={evals}");
+    for v in r2.violations.iter().filter(|v| v.signature == sig) {
+        println!("{}", v.detail);
+    }
+    println!("{}", serde_json::to_string(&min).unwrap());
+    1
+}
